@@ -22,7 +22,7 @@ from .. import ep_corr as E
 from ..common import Result, Violation, f2h
 
 META = dict(
-    level='Lean theorems over the EP model specialised to star inputs with hand-modelled rootward t_j=0 projection, _damp and _rescale (each tied to the real function by bit-level correspondence): for all star inputs, edge orders covering all edges, dampings and k>=1 iterations the posterior is exactly (1+sum y, mu*sum span) when 1+sum y <= max_shape. The capped clause is FALSE of the code: negation proved in Lean on a concrete rational input and reproduced on the real code (finding F9, known). Partial: capped clause violated; float rounding outside the theorem (observed <= 4e-16).',
+    level='Lean theorems over the EP model specialised to star inputs with hand-modelled rootward t_j=0 projection, _damp and _rescale (each proved equal to the kernel regenerated from the source and tied to the real function by bit-level correspondence): for all star inputs, edge orders covering all edges, dampings and k>=1 iterations the posterior is exactly (1+sum y, mu*sum span) when 1+sum y <= max_shape. The capped clause is FALSE of the code: negation proved in Lean on a concrete rational input and reproduced on the real code (finding F9, known). Partial: capped clause violated; float rounding outside the theorem (observed <= 4e-16).',
     note='Lean kernel + {propext, Classical.choice, Quot.sound}; sampled bit-exact correspondence of damp/rescale/rootwardT0 and of whole star runs; exact arithmetic in the theorems',
     technique='specialised loop invariant (visited messages equal likelihoods) + decide-checked counterexample + closed-form oracle',
     ref='§3 C20',
